@@ -1,16 +1,40 @@
 (* Dispatch of case lines to the per-property drivers. *)
 From Coq Require Import List ZArith String Ascii Bool Arith.
 From SMD Require Import Base.Sexp Model.Value Model.Schema Model.Codec
-  Driver.Common Driver.Algebra Driver.Typed.
+  Driver.Common Driver.Algebra Driver.Typed Driver.Hist.
 Import ListNotations.
 Open Scope string_scope.
+
+Definition with_conf (st : dstate) (cid : string) : option hconf :=
+  match assoc_get cid (ds_confs st) with
+  | Some (vs, ms, ign) => dec_hconf vs ms ign
+  | None => None
+  end.
 
 Definition run_case (st : dstate) (x : sexp) : dstate * outcome :=
   match x with
   | SList [SAtom "defschema"; SAtom id; sch] =>
       match dec_schema sch with
-      | Some s => (mkDS (assoc_set id s (ds_schemas st)), mkOut [] 0 0 ["defschema"])
+      | Some s => (mkDS (assoc_set id s (ds_schemas st)) (ds_prop st) (ds_confs st), mkOut [] 0 0 ["defschema"])
       | None => (st, out_bad "schema")
+      end
+  | SList [SAtom "setprop"; SAtom p] => (mkDS (ds_schemas st) p (ds_confs st), mkOut [] 0 0 ["setprop"])
+  | SList [SAtom "defconf"; SAtom id; vs; ms; ign] =>
+      (mkDS (ds_schemas st) (ds_prop st) (assoc_set id (vs, ms, ign) (ds_confs st)), mkOut [] 0 0 ["defconf"])
+  | SList [SAtom "hist.apply"; SAtom cid; live; mobs; mgr; ver; cfg; a; b; c; d] =>
+      match with_conf st cid with
+      | Some hc => (st, run_hist_apply (ds_prop st) (ds_schemas st) hc live mobs mgr ver cfg a b c d)
+      | None => (st, out_bad "unknown conf")
+      end
+  | SList [SAtom "hist.update"; SAtom cid; live; mobs; mgr; ver; obj; o] =>
+      match with_conf st cid with
+      | Some hc => (st, run_hist_update (ds_prop st) (ds_schemas st) hc live mobs mgr ver obj o)
+      | None => (st, out_bad "unknown conf")
+      end
+  | SList [SAtom "hist.extract"; SAtom cid; live; mobs; mgr; ext; o] =>
+      match with_conf st cid with
+      | Some hc => (st, run_hist_extract (ds_prop st) (ds_schemas st) hc live mobs mgr ext o)
+      | None => (st, out_bad "unknown conf")
       end
   | SList [SAtom "c17.matrix"; SAtom kind; items; rows] => (st, run_c17_matrix kind items rows)
   | SList [SAtom "c17.pes"; ins; univ; iter; has] => (st, run_c17_pes ins univ iter has)
